@@ -244,6 +244,7 @@ Proof.
   - apply fr_hook_handler.
   - apply fr_delete_handler.
   - apply fr_retry_handler.
+  - unfold conn_handler. fr_go.
 Qed.
 Lemma fr_relay_entries l : fr (relay_entries l).
 Proof. induction l as [|o tl IH]; cbn [relay_entries]; fr_go. Qed.
